@@ -582,7 +582,11 @@ fn exec(op: &Op, l: &mut Local, t: &Arc<Tables>) -> Result<ObsVal, String> {
             Ok(ObsVal::Count(ok as u64))
         }
         Op::Flush => {
-            sched().yield_at(l.actor, Pending::Flush);
+            // (not a scheduling point when called from a thread-local destructor: the actor has
+            // already left the schedule)
+            if crate::sched::me().is_some() {
+                sched().yield_at(l.actor, Pending::Flush);
+            }
             fastrace::flush();
             Ok(ObsVal::Unit)
         }
@@ -593,6 +597,9 @@ fn exec(op: &Op, l: &mut Local, t: &Arc<Tables>) -> Result<ObsVal, String> {
             Ok(ObsVal::Unit)
         }
         Op::Wait(f) => {
+            if crate::sched::me().is_none() {
+                return Err("wait outside of the schedule".into());
+            }
             sched().yield_at(l.actor, Pending::Wait(*f));
             Ok(ObsVal::Unit)
         }
@@ -642,6 +649,25 @@ fn exec(op: &Op, l: &mut Local, t: &Arc<Tables>) -> Result<ObsVal, String> {
             sched().world().actors[l.actor].bulk = false;
             Ok(ObsVal::Unit)
         }
+        Op::RootRandom { slot, name } => {
+            let s1 = Span::root(name.clone(), SpanContext::random());
+            put_span(t, *slot, s1)?;
+            let s2 = Span::root(format!("{name}.d"), SpanContext::default());
+            drop(s2);
+            Ok(ObsVal::Unit)
+        }
+        Op::RandomIds => {
+            let a = TraceId::random();
+            let b = SpanId::random();
+            let c = SpanContext::random();
+            let d = SpanContext::default();
+            Ok(ObsVal::Count((a.0 as u64) ^ b.0 ^ (c.span_id.0) ^ (d.span_id.0) | 1))
+        }
+        Op::AtThreadExit { inner } => {
+            let hook = ExitHook { ops: inner.clone(), tables: t.clone(), actor: l.actor };
+            AT_EXIT.with(|c| *c.borrow_mut() = Some(hook));
+            Ok(ObsVal::Unit)
+        }
         Op::Warm => {
             let n = fastrace::verif::ring_free_slots().ok_or("no ring")?;
             Ok(ObsVal::Count(n as u64))
@@ -653,6 +679,58 @@ fn exec(op: &Op, l: &mut Local, t: &Arc<Tables>) -> Result<ObsVal, String> {
             }
             Ok(ObsVal::Unit)
         }
+    }
+}
+
+struct ExitHook {
+    ops: Vec<Op>,
+    tables: Arc<Tables>,
+    actor: usize,
+}
+
+thread_local! {
+    static AT_EXIT: std::cell::RefCell<Option<ExitHook>> = const { std::cell::RefCell::new(None) };
+}
+
+impl Drop for ExitHook {
+    fn drop(&mut self) {
+        // Runs while the thread's local storage is being torn down. A panic out of a thread-local
+        // destructor aborts the process, so every call is caught and recorded.
+        let mut l = Local { actor: self.actor, guards: Vec::new(), fill_guards: Vec::new(), closures: 0, cur_op: usize::MAX };
+        for (i, op) in self.ops.iter().enumerate() {
+            let t = self.tables.clone();
+            let r = catch_unwind(AssertUnwindSafe(|| exec(op, &mut l, &t)));
+            let val = match r {
+                Ok(Ok(v)) => v,
+                Ok(Err(e)) => ObsVal::IllFormed(e),
+                Err(e) => ObsVal::Panic(format!("in a thread-local destructor: {}", panic_msg(e))),
+            };
+            lock(&self.tables.obs).push(Obs {
+                actor: self.actor,
+                op: usize::MAX - 1,
+                label: format!("at-exit:{i}:{}", crate::oracle::op_kind(op)),
+                seq_begin: 0,
+                seq_end: 0,
+                unix_begin_ns: 0,
+                unix_end_ns: 0,
+                mono_begin_ns: 0,
+                mono_end_ns: 0,
+                val,
+                closures: l.closures,
+            });
+        }
+        let _ = catch_unwind(AssertUnwindSafe(|| {
+            while let Some(g) = l.guards.pop() {
+                drop(g);
+            }
+        }));
+        // spans created by the destructor live in slots >= 900 and are released here
+        let mine: Vec<Arc<Span>> = {
+            let mut sp = lock(&self.tables.spans);
+            let keys: Vec<u32> = sp.keys().copied().filter(|k| *k >= 900 && *k < 1000).collect();
+            keys.into_iter().filter_map(|k| sp.remove(&k)).collect()
+        };
+        let _ = catch_unwind(AssertUnwindSafe(move || drop(mine)));
     }
 }
 
@@ -852,6 +930,19 @@ pub fn actor_main(id: usize, actor: Actor, t: Arc<Tables>) {
     {
         let n = actor.ops.len();
         s.world().push_log(Some(id), Ev::OpEnd { op: n });
+    }
+    // Commands still parked in the overflow list when the thread exits may be lost (C09 only
+    // protects them while the thread lives); make that visible to the oracles.
+    let traced = {
+        let w = s.world();
+        w.actors[id].pushed > 0 || w.actors[id].bulk_pushes > 0
+    };
+    if traced {
+        if let Some(n) = fastrace::verif::parked_commands() {
+            if n > 0 {
+                s.world().push_log(Some(id), Ev::Note(format!("parked-at-exit:{n}")));
+            }
+        }
     }
     s.yield_at(id, Pending::Exit);
     crate::sched::set_me(None);
